@@ -80,6 +80,8 @@ def run(tier, out, model_ok, proof):
     pairs = list(treecorr.exhaustive_pairs())
     docs += pairs          # all 10^4 (parent, child) renderings x explicit/implicit in both tiers
     docs += list(treecorr.chain_docs())     # every (parent, child) entry at the end of a valid ancestor chain
+    stale = list(treecorr.stale_sibling_docs())
+    docs += stale
     # triples: sampled (exhaustive is ~10^6)
     items = [(r, x) for k in treecorr.KIND_LIST for r in treecorr.RENDER[k] for x in (False, True)]
     for _ in range(30000 if tier == "thorough" else 3000):
@@ -108,6 +110,7 @@ def run(tier, out, model_ok, proof):
         mism = []
     verdicts = {}
     nontrivial = set()
+    replayed = 0
     for c, d in zip(cases, docs):
         r = g.get(c["id"])
         v = ctxref.ref_build(d)[0]
@@ -117,6 +120,14 @@ def run(tier, out, model_ok, proof):
         j = judge(d, r, crashes.get(c["id"]))
         if j:
             out.violations.append({"what": j[0], "class": j[1], "input": bytes.fromhex(c["files"]["root.jst"]).decode("latin1")})
+        # the second context pass (core/compile_core_paste.go replays the scanned forest while it
+        # expands PASTEs) must place every directive where the first one did: without MACRO/PASTE
+        # the expanded forest IS the scanned forest
+        if r and r.get("p2") == "ok" and not r.get("macros") and "PASTE" not in " ".join(t[0] for t in d if t != ")") \
+                and r.get("expanded") != r.get("roots"):
+            replayed += 1
+            out.violations.append({"what": "a document without MACRO/PASTE: the forest after the PASTE stage differs from the scanned forest (a directive was re-attached by the second context pass)",
+                                   "class": "second-pass", "input": bytes.fromhex(c["files"]["root.jst"]).decode("latin1")})
     # every context-capable kind (explicit and implicit) x every child rendering x every kind after it:
     # judged by the reference automaton only (the model is not run on these)
     k2r = lambda k: "200" if k == "RESP" else k
@@ -157,7 +168,7 @@ def run(tier, out, model_ok, proof):
         "evaluations": len(cases) + len(tcases),
         "triples_judged_by_reference_only": len(tcases),
         "distinct_nontrivial": len(nontrivial),
-        "rule": "sequences of directives over all 31 kinds (x path / no path, x body / no body renderings) x explicit/implicit, with ')' tokens: %s pairs, every (parent, child) pair below a valid chain of ancestors (explicit and implicit), all triples (context kind, child rendering, next kind) judged by the reference, sampled arbitrary triples, random sequences up to 12, structured valid documents and their perturbations; non-trivial = at least two tokens; each case: (a) scanner+core forest with every parent link, error class/line compared between implementation and extracted Coq model, (b) implementation verdict judged by an independent reference automaton (lib/ctxref.py)" % "all",
+        "rule": "sequences of directives over all 31 kinds (x path / no path, x body / no body renderings) x explicit/implicit, with ')' tokens: %s pairs, every (parent, child) pair below a valid chain of ancestors (explicit and implicit), all triples (context kind, child rendering, next kind) judged by the reference, sampled arbitrary triples, random sequences up to 12, structured valid documents and their perturbations, an implicit subtree followed by an explicit sibling followed by every kind (below every valid ancestor chain); non-trivial = at least two tokens; each case: (a) scanner+core forest with every parent link, error class/line compared between implementation and extracted Coq model, (b) implementation verdict judged by an independent reference automaton (lib/ctxref.py), (c) without MACRO/PASTE the forest after the PASTE stage must equal the scanned forest" % "all",
         "samples": [bytes.fromhex(c["files"]["root.jst"]).decode("latin1") for c in cases[:2] + cases[-2:]],
         "traces_validated_against_impl": len(cases) - len(mism) if model_ok else 0,
         "reference_verdicts": verdicts,
